@@ -11,6 +11,18 @@ Open Scope N_scope.
 Lemma M64_eq : M64 = 2 ^ 64. Proof. reflexivity. Qed.
 Lemma M32_eq : M32 = 2 ^ 32. Proof. reflexivity. Qed.
 
+Lemma w64_mod : forall x, w64 x = x mod M64.
+Proof. intro x. unfold w64. change mask64 with (N.ones 64). rewrite N.land_ones. reflexivity. Qed.
+
+Lemma w32_mod : forall x, w32 x = x mod M32.
+Proof. intro x. unfold w32. change mask32 with (N.ones 32). rewrite N.land_ones. reflexivity. Qed.
+
+Lemma mul64_mod : forall a b, mul64 a b = (a * b) mod M64.
+Proof. intros. apply w64_mod. Qed.
+
+Lemma add64_mod : forall a b, add64 a b = (a + b) mod M64.
+Proof. intros. apply w64_mod. Qed.
+
 Lemma lt_pow2_bits_high : forall a n m, a < 2 ^ n -> n <= m -> N.testbit a m = false.
 Proof.
   intros a n m H Hm. rewrite <- (N.mod_small a (2 ^ n)) by exact H.
@@ -64,7 +76,7 @@ Proof. intros. unfold bit, bit_pos. apply N.shiftl_1_l. Qed.
 
 Lemma bit_pos_lt : forall x s, bit_pos x s < 32.
 Proof.
-  intros. unfold bit_pos, mul32. rewrite N.shiftr_div_pow2.
+  intros. unfold bit_pos, mul32. rewrite w32_mod, N.shiftr_div_pow2.
   apply N.div_lt_upper_bound; [discriminate|].
   change (2 ^ 27 * 32) with M32. apply N.mod_lt. discriminate.
 Qed.
@@ -145,7 +157,7 @@ Proof. intros. unfold block_index. rewrite length_filter_insert. reflexivity. Qe
 
 Lemma fasthash_lt : forall x n, x < M64 -> 0 < n -> n < 2 ^ 31 -> fasthash1x64 x n < n.
 Proof.
-  intros x n Hx Hn Hn31. unfold fasthash1x64, mul64.
+  intros x n Hx Hn Hn31. unfold fasthash1x64. rewrite mul64_mod.
   rewrite !N.shiftr_div_pow2.
   assert (Ha : x / 2 ^ 32 < 2 ^ 32).
   { apply N.div_lt_upper_bound; [discriminate|]. exact Hx. }
